@@ -107,9 +107,13 @@ class Rec:
             self.samples.append(jsonable(obj))
 
     # -- verdicts -----------------------------------------------------------
-    def violation(self, clause, sig, what, case, observed=None, expected=None, script=None):
+    def violation(self, clause, sig, what, case, observed=None, expected=None, script=None, keys=None):
         """clause: clause id of appendix A; sig: categorical signature (dict of str);
+        keys: the subset of signature keys that identify the violation class (default: all);
         case: JSON-able descriptor sufficient to re-run this path inside its unit."""
+        if keys is not None:
+            case = dict(case or {}, full_signature={k: str(v) for k, v in sig.items()})
+            sig = {k: v for k, v in sig.items() if k in keys}
         key = (clause, tuple(sorted((k, str(v)) for k, v in sig.items())))
         self._viol_count[key] += 1
         if self._viol_count[key] > self.MAX_VIOL_PER_CLASS:
@@ -318,8 +322,8 @@ def run_check(prop, tier="quick", seed=0, replay=None, jobs=None, cap_s=None, qu
             with open(path[:-5] + ".py", "w") as f:
                 f.write(v["script"])
         lines.append("VIOLATION property=%s replay=%s" % (prop, path))
-        if not quiet:
-            sys.stderr.write("  class clause=%s sig=%s n=%d: %s\n" % (v["clause"], v["sig"], c["n"], v["what"]))
+        if not quiet and len(lines) <= 40:
+            sys.stderr.write("  class clause=%s sig=%s n=%d: %s\n" % (v["clause"], v["sig"], c["n"], v["what"][:200]))
 
     for fid, f in known_lines.items():
         print("KNOWN-FINDING: property=%s %s" % (prop, f["what"]))
